@@ -57,6 +57,8 @@ func runC17(e *Env) error {
 	rg := e.Rng
 	r.Rule = "programs from the control-flow/include/extends/macro/import generators with spy filters, functions and tests at random positions; a dry run counts the spy invocations, then for every n (all n when ≤ 60, sampled beyond) the n-th invocation returns a sentinel error: " +
 		"the real engine must return \"\" and an error through which the sentinel is found with errors.As, and the Lean model must agree (class and cause); unresolved filter/function/test/macro/template names and a failing loader must surface; documented tolerances (undefined variable/attribute, ignore missing) must not; " +
+		"a loader that has the nested template but fails, in every arrangement of 1–4 loaders (before/after loaders that do not know the name, ArrayLoader, ChainLoader) × loading statement × place in the template structure × plain/relative name with healthy decoys, cold and warm with the cache off, rendered twice; " +
+		"macro calls stored (set, list, hash, conditional, macro argument, include with) before they are printed once, several times or never, every invocation failing in turn: an invocation that was made and failed fails the render; " +
 		"non-trivial = program with ≥ 1 spy invocation; distinct by program × failing invocation"
 	// unresolved names and tolerances (implementation-only)
 	table := []struct {
@@ -197,6 +199,15 @@ func runC17(e *Env) error {
 			r.Violate(Violation{Key: "defined-test-swallows-failure", What: fmt.Sprintf("a failing callback inside `x.f().y is defined` is swallowed: Render returns %q with a nil error", im.Out),
 				Broken: "C17_propagates (full strength); see C17_propagates_partial / C17_counterexample_isdefined", Replay: c.replay(im, Outcome{})})
 		}
+	}
+	// loaders: every arrangement of several loaders around the one that fails (c17_loaders.go)
+	loaderArrangementOracle(e)
+	// macro calls that are stored before they are printed (c17_stored.go)
+	if err := storedCallsOracle(e); err != nil {
+		return err
+	}
+	if r.Full() {
+		return nil
 	}
 	// fault injection at every spy invocation
 	n := e.N(120, 6000)
